@@ -461,6 +461,9 @@ func RunC03Random(k *fw.Case) {
 				tvS(id+11, &gen.Ref{Name: "H.Pn.X"}), tvS(id+12, &gen.Ref{Name: "H.Pn.S"}),
 				&gen.Assign{Target: "H.Pn.W", Op: "=", E: il(int64(r.Intn(100)))},
 				tvS(id+13, &gen.Ref{Name: "H.Pn.W"}),
+				// V is injected BY VALUE, but its field Pn is a pointer: a store through it reaches the host's object
+				&gen.Assign{Target: "V.Pn.X", Op: "=", E: il(int64(r.Intn(1000)))},
+				tvS(id+14, &gen.Ref{Name: "V.Pn.X"}),
 			}
 		case 0: // typed reads of injected data, incl. missing map keys
 			ru.key, ru.desc = "read", "typed reads of injected values"
